@@ -452,32 +452,85 @@ Proof.
   rewrite fle_finite by (exact Hf || reflexivity). change (B2R fzero) with 0%R. apply Rle_bool_false. exact Hm.
 Qed.
 
+(* ---- the factor tests !(x > y) ---- *)
+Lemma ngt_fle (x y : f64) : fis_nan x = false -> fis_nan y = false -> negb (fgt x y) = fle x y.
+Proof. intros Hx Hy. rewrite fgt_negb_fle by assumption. apply negb_involutive. Qed.
+
+Lemma fgt_nan_l (x y : f64) : fis_nan x = true -> fgt x y = false.
+Proof. destruct x; try discriminate. reflexivity. Qed.
+
+Lemma fgt_nan_r (x y : f64) : fis_nan y = true -> fgt x y = false.
+Proof. destruct y; try discriminate. destruct x as [s|s| |s m e B]; try destruct s; reflexivity. Qed.
+
+Lemma fgt_pinf_r (x : f64) : fgt x (B754_infinity false) = false.
+Proof. destruct x as [s|s| |s m e B]; try destruct s; reflexivity. Qed.
+
+(* x > 1 in float64: +Inf or a finite number above 1 *)
+Lemma fgt_one_cases (x : f64) : fgt x fone = true -> x = B754_infinity false \/ (is_finite x = true /\ (1 < B2R x)%R).
+Proof.
+  intros H. destruct fone_val as [O1 O2].
+  destruct x as [s|s| |s m e B].
+  - right. split; [reflexivity|]. rewrite fgt_negb_fle in H by (reflexivity || apply finite_not_nan, O2).
+    apply negb_true_iff in H. apply fle_false_gt in H; [|reflexivity|exact O2]. rewrite O1 in H. exact H.
+  - destruct s; [vm_compute in H; discriminate H|left; reflexivity].
+  - vm_compute in H. discriminate H.
+  - right. split; [reflexivity|]. rewrite fgt_negb_fle in H by (reflexivity || apply finite_not_nan, O2).
+    apply negb_true_iff in H. apply fle_false_gt in H; [|reflexivity|exact O2]. rewrite O1 in H. exact H.
+Qed.
+
+(* +Inf x float64(D) for a positive D *)
+Lemma cap_pinf D : in_i64 D -> 0 < D -> cap (B754_infinity false) D = B754_infinity false.
+Proof.
+  intros ID Dp. destruct (f_of_int_correct D (in_i64_abs D ID)) as [E1 E2].
+  assert (HD1 : (1 <= RN (IZR D))%R) by (rewrite <- RN_1; apply RN_le, IZR_le; lia).
+  pose proof (B2R_sign _ E2) as SD. rewrite E1 in SD.
+  unfold cap, fmul. destruct (f_of_int D) as [s|s| |s m e B]; try discriminate.
+  - cbn in E1. lra.
+  - cbn in SD. destruct s; [lra|reflexivity].
+Qed.
+
+(* what passing the three factor tests means: the reference factor is a finite number above 1, the peer
+   factor is +Inf or a finite number above 1 *)
+Lemma factor_tests cfg :
+  fgt (c_ref cfg) fone = true -> fgt (c_peer cfg) fone = true -> fgt (fsub (c_peer cfg) fone) (c_ref cfg) = true ->
+  (is_finite (c_ref cfg) = true /\ (1 < B2R (c_ref cfg))%R) /\
+  (c_peer cfg = B754_infinity false \/ (is_finite (c_peer cfg) = true /\ (1 < B2R (c_peer cfg))%R)).
+Proof.
+  intros T1 T2 T3. split; [|apply fgt_one_cases; exact T2].
+  destruct (fgt_one_cases _ T1) as [E|H]; [|exact H].
+  rewrite E, fgt_pinf_r in T3. discriminate T3.
+Qed.
+
 (* ---- the prologue ---- *)
-Lemma prologue_cases cfg D :
-  is_finite (c_ref cfg) = true -> is_finite (c_peer cfg) = true -> in_i64 (c_interval cfg) -> in_i64 D ->
+Lemma prologue_cases cfg D : in_i64 (c_interval cfg) -> in_i64 D ->
   match prologue cfg D with
   | Refuse code nd => (inadmissible cfg = true /\ nd = 0%nat) \/ (inadmissible cfg = false /\ D <= 0 /\ nd = 1%nat)
   | Start rm pm => inadmissible cfg = false /\ 0 < D /\ rm = cap (c_ref cfg) D /\ pm = cap (c_peer cfg) D
                    /\ cap_ok rm /\ cap_ok pm
   end.
 Proof.
-  intros Fr Fp Ii ID. destruct fone_val as [O1 O2].
+  intros Ii ID.
   unfold prologue, inadmissible.
-  destruct (fle (c_ref cfg) fone) eqn:T1; [left; auto|].
-  destruct (fle (c_peer cfg) fone) eqn:T2; [left; auto|].
-  destruct (fle (fsub (c_peer cfg) fone) (c_ref cfg)) eqn:T3; [left; auto|].
+  destruct (fgt (c_ref cfg) fone) eqn:T1; [|left; auto]. cbn [negb orb].
+  destruct (fgt (c_peer cfg) fone) eqn:T2; [|left; auto]. cbn [negb orb].
+  destruct (fgt (fsub (c_peer cfg) fone) (c_ref cfg)) eqn:T3; [|left; auto]. cbn [negb orb].
   destruct (c_interval cfg <=? 0) eqn:T4; [left; auto|].
   assert (G : go_div (c_interval cfg) 2 = Z.quot (c_interval cfg) 2).
   { unfold go_div. apply i64_same. unfold in_i64, min_i64, max_i64 in *. lia. }
   rewrite G. cbn [orb].
   destruct (c_timeout cfg <? 0) eqn:T5; [left; auto|].
   destruct (Z.quot (c_interval cfg) 2 <? c_timeout cfg) eqn:T6; [left; auto|]. cbn [orb].
-  pose proof (fle_false_gt _ _ Fr O2 T1) as Gr. pose proof (fle_false_gt _ _ Fp O2 T2) as Gp. rewrite O1 in Gr, Gp.
-  destruct (cap_sign (c_ref cfg) D Fr Gr ID) as [Rn Rp]. destruct (cap_sign (c_peer cfg) D Fp Gp ID) as [Pn Pp].
+  destruct (factor_tests cfg T1 T2 T3) as [[Fr Gr] HP].
+  destruct (cap_sign (c_ref cfg) D Fr Gr ID) as [Rn Rp].
   unfold max_corr. fold (cap (c_ref cfg) D). fold (cap (c_peer cfg) D).
   destruct (Z_le_gt_dec D 0) as [Dn|Dp].
   - rewrite (Rn Dn). right. auto.
-  - assert (0 < D) as Dp' by lia. rewrite (cap_ok_not_le0 _ (Rp Dp')), (cap_ok_not_le0 _ (Pp Dp')). auto 10.
+  - assert (0 < D) as Dp' by lia.
+    assert (Cp : cap_ok (cap (c_peer cfg) D)).
+    { destruct HP as [E|[Fp Gp]].
+      - rewrite E, cap_pinf by assumption. split; reflexivity.
+      - apply (cap_sign (c_peer cfg) D Fp Gp ID). exact Dp'. }
+    rewrite (cap_ok_not_le0 _ (Rp Dp')), (cap_ok_not_le0 _ Cp). auto 10.
 Qed.
 
 (* ---- the measurement slices ---- *)
@@ -579,14 +632,11 @@ Theorem run_oracle cfg D nref npeer rs : in_i64 (c_interval cfg) -> in_i64 D ->
   C01_ok cfg nref npeer rs (run cfg D nref npeer rs) = true.
 Proof.
   intros Ii ID. unfold C01_ok, run.
-  destruct (fis_finite (c_ref cfg) && fis_finite (c_peer cfg)) eqn:Fin.
-  2: { destruct (prologue cfg D); reflexivity. }
-  apply andb_prop in Fin. destruct Fin as [Fr Fp]. unfold fis_finite in Fr, Fp.
-  pose proof (prologue_cases cfg D Fr Fp Ii ID) as P.
+  pose proof (prologue_cases cfg D Ii ID) as P.
   destruct (prologue cfg D) as [code nd|rm pm].
-  - cbn [negb]. destruct P as [[-> ->] | [-> [Dn ->]]]; [reflexivity|].
+  - destruct P as [[-> ->] | [-> [Dn ->]]]; [reflexivity|].
     cbn. rewrite Z.eqb_refl. cbn. destruct (0 <? D) eqn:E; [lia|]. reflexivity.
-  - destruct P as [-> [Dp [-> [-> [Cr Cp]]]]]. cbn [negb drift_calls].
+  - destruct P as [-> [Dp [-> [-> [Cr Cp]]]]]. cbn [drift_calls].
     rewrite drift_calls_loop. cbn. rewrite Z.eqb_refl. cbn.
     destruct (0 <? D) eqn:E; [|lia]. cbn.
     apply loop_ok; try assumption; [apply repeat_length|].
@@ -615,12 +665,28 @@ Proof.
   - intros H. apply Rle_bool_true. exact H.
 Qed.
 
+(* for finite factors !(x > y) is x <= y *)
+Lemma inadmissible_finite cfg : is_finite (c_ref cfg) = true -> is_finite (c_peer cfg) = true ->
+  inadmissible cfg =
+  (fle (c_ref cfg) fone || fle (c_peer cfg) fone || fle (fsub (c_peer cfg) fone) (c_ref cfg)
+   || (c_interval cfg <=? 0) || (c_timeout cfg <? 0) || (Z.quot (c_interval cfg) 2 <? c_timeout cfg)).
+Proof.
+  intros Fr Fp. destruct fone_val as [O1 O2]. unfold inadmissible.
+  rewrite (ngt_fle (c_ref cfg) fone) by (apply finite_not_nan; assumption).
+  rewrite (ngt_fle (c_peer cfg) fone) by (apply finite_not_nan; assumption).
+  destruct (fle (c_peer cfg) fone) eqn:T2.
+  - rewrite !orb_true_r. reflexivity.
+  - pose proof (fle_false_gt _ _ Fp O2 T2) as Gp. rewrite O1 in Gp.
+    destruct (fsub_one_gt1 _ Fp Gp) as [_ S2].
+    rewrite (ngt_fle (fsub (c_peer cfg) fone) (c_ref cfg)) by (apply finite_not_nan; assumption). reflexivity.
+Qed.
+
 Lemma inadmissible_real cfg : is_finite (c_ref cfg) = true -> is_finite (c_peer cfg) = true ->
   (inadmissible cfg = true <->
    (B2R (c_ref cfg) <= 1)%R \/ (B2R (c_peer cfg) <= 1)%R \/ (RN (B2R (c_peer cfg) - 1) <= B2R (c_ref cfg))%R \/
    c_interval cfg <= 0 \/ c_timeout cfg < 0 \/ Z.quot (c_interval cfg) 2 < c_timeout cfg).
 Proof.
-  intros Fr Fp. destruct fone_val as [O1 O2]. unfold inadmissible.
+  intros Fr Fp. destruct fone_val as [O1 O2]. rewrite (inadmissible_finite cfg Fr Fp).
   pose proof (fle_real _ _ Fr O2) as E1. pose proof (fle_real _ _ Fp O2) as E2. rewrite O1 in E1, E2.
   destruct (Rle_or_lt (B2R (c_peer cfg)) 1) as [Hp|Hp].
   - assert (fle (c_peer cfg) fone = true) as -> by (apply E2; exact Hp).
@@ -628,6 +694,23 @@ Proof.
   - destruct (fsub_one_gt1 _ Fp Hp) as [S1 S2].
     pose proof (fle_real _ _ S2 Fr) as E3. rewrite S1 in E3.
     rewrite !orb_true_iff, E1, E2, E3, Z.leb_le, !Z.ltb_lt. tauto.
+Qed.
+
+(* a NaN factor is inadmissible (every comparison with NaN is false) *)
+Lemma nan_inadmissible cfg : fis_nan (c_ref cfg) = true \/ fis_nan (c_peer cfg) = true -> inadmissible cfg = true.
+Proof.
+  intros [H|H]; unfold inadmissible.
+  - rewrite (fgt_nan_l _ _ H). reflexivity.
+  - rewrite (fgt_nan_l (c_peer cfg) fone H). cbn. rewrite orb_true_r. reflexivity.
+Qed.
+
+(* so is every infinite factor except a peer factor +Inf *)
+Lemma inf_inadmissible cfg : is_finite (c_ref cfg) = false \/ c_peer cfg = B754_infinity true -> inadmissible cfg = true.
+Proof.
+  intros H. destruct (inadmissible cfg) eqn:E; [reflexivity|exfalso].
+  unfold inadmissible in E. rewrite !orb_false_iff, !negb_false_iff in E. destruct E as [[[[[T1 T2] T3] _] _] _].
+  destruct (factor_tests cfg T1 T2 T3) as [[Fr _] _].
+  destruct H as [H|H]; [congruence|]. rewrite H in T2. vm_compute in T2. discriminate T2.
 Qed.
 
 (* a peer factor that does not exceed the reference factor by more than 1 (in exact arithmetic) is refused *)
@@ -642,12 +725,12 @@ Qed.
 Lemma fle_refl_pinf : fle (B754_infinity false) (B754_infinity false) = true.
 Proof. reflexivity. Qed.
 
-Lemma caps_ordered cfg D : is_finite (c_ref cfg) = true -> is_finite (c_peer cfg) = true ->
+Lemma caps_ordered_fin cfg D : is_finite (c_ref cfg) = true -> is_finite (c_peer cfg) = true ->
   inadmissible cfg = false -> in_i64 D -> 0 < D ->
   fle (cap (c_ref cfg) D) (cap (c_peer cfg) D) = true.
 Proof.
   intros Fr Fp Hin ID Dp. destruct fone_val as [O1 O2].
-  unfold inadmissible in Hin. rewrite !orb_false_iff in Hin. destruct Hin as [[[[[T1 T2] T3] _] _] _].
+  rewrite (inadmissible_finite cfg Fr Fp) in Hin. rewrite !orb_false_iff in Hin. destruct Hin as [[[[[T1 T2] T3] _] _] _].
   pose proof (fle_false_gt _ _ Fr O2 T1) as Gr. pose proof (fle_false_gt _ _ Fp O2 T2) as Gp. rewrite O1 in Gr, Gp.
   destruct (fsub_one_gt1 _ Fp Gp) as [S1 S2].
   pose proof (fle_false_gt _ _ S2 Fr T3) as G3. rewrite S1 in G3.
@@ -675,6 +758,24 @@ Proof.
       apply fle_real; [exact B|exact Pf|]. rewrite A, PV. exact Hmono.
     + rewrite Rabs_pos_eq by exact Hpos. eapply Rle_lt_trans; [exact Hmono|].
       eapply Rle_lt_trans; [apply Rle_abs|exact PB].
+Qed.
+
+Lemma admissible_factors cfg : inadmissible cfg = false ->
+  (is_finite (c_ref cfg) = true /\ (1 < B2R (c_ref cfg))%R) /\
+  (c_peer cfg = B754_infinity false \/ (is_finite (c_peer cfg) = true /\ (1 < B2R (c_peer cfg))%R)).
+Proof.
+  intros E. unfold inadmissible in E. rewrite !orb_false_iff, !negb_false_iff in E. destruct E as [[[[[T1 T2] T3] _] _] _].
+  apply factor_tests; assumption.
+Qed.
+
+Lemma caps_ordered cfg D : inadmissible cfg = false -> in_i64 D -> 0 < D ->
+  fle (cap (c_ref cfg) D) (cap (c_peer cfg) D) = true.
+Proof.
+  intros Hin ID Dp. destruct (admissible_factors cfg Hin) as [[Fr Gr] [E|[Fp Gp]]].
+  - rewrite E, cap_pinf by assumption.
+    destruct (cap_sign (c_ref cfg) D Fr Gr ID) as [_ Cr]. specialize (Cr Dp).
+    destruct (cap_ok_cases _ Cr) as [-> | [Rf _]]; [reflexivity|apply fle_pinf; exact Rf].
+  - apply caps_ordered_fin; assumption.
 Qed.
 
 (* ---- caps below 2^53 ns: "within" is the integer inequality |c| <= floor(cap) ---- *)
@@ -780,13 +881,13 @@ Qed.
 
 (* one correction per round, each within the bound, for every history *)
 Theorem run_history cfg D nref npeer rs :
-  is_finite (c_ref cfg) = true -> is_finite (c_peer cfg) = true -> in_i64 (c_interval cfg) -> in_i64 D ->
+  in_i64 (c_interval cfg) -> in_i64 D ->
   inadmissible cfg = false -> 0 < D ->
   exists evs,
     run cfg D nref npeer rs = (false, EDrift (c_interval cfg) D :: EDrift (c_interval cfg) D :: evs) /\
     alternates (corr_bounded cfg (cap (c_ref cfg) D) (cap (c_peer cfg) D) nref npeer) (c_interval cfg) (length rs) evs.
 Proof.
-  intros Fr Fp Ii ID Hin Dp. pose proof (prologue_cases cfg D Fr Fp Ii ID) as P. unfold run.
+  intros Ii ID Hin Dp. pose proof (prologue_cases cfg D Ii ID) as P. unfold run.
   destruct (prologue cfg D) as [code nd|rm pm].
   - exfalso. destruct P as [[A _]|[_ [B _]]]; [congruence|lia].
   - destruct P as [_ [_ [-> [-> [Cr Cp]]]]]. eexists. split; [reflexivity|].
@@ -797,11 +898,11 @@ Qed.
 
 (* inadmissible settings and clocks without a positive drift: nothing is ever handed to the discipline *)
 Theorem run_refused cfg D nref npeer rs :
-  is_finite (c_ref cfg) = true -> is_finite (c_peer cfg) = true -> in_i64 (c_interval cfg) -> in_i64 D ->
+  in_i64 (c_interval cfg) -> in_i64 D ->
   inadmissible cfg = true \/ D <= 0 ->
   exists nd, run cfg D nref npeer rs = (true, repeat (EDrift (c_interval cfg) D) nd).
 Proof.
-  intros Fr Fp Ii ID H. pose proof (prologue_cases cfg D Fr Fp Ii ID) as P. unfold run.
+  intros Ii ID H. pose proof (prologue_cases cfg D Ii ID) as P. unfold run.
   destruct (prologue cfg D) as [code nd|rm pm]; [eexists; reflexivity|].
   exfalso. destruct P as [A [B _]]. destruct H; [congruence|lia].
 Qed.
@@ -848,12 +949,12 @@ Qed.
 
 (* ---- statements exported to Props/C01.v ---- *)
 Theorem startup_refusal cfg D :
-  is_finite (c_ref cfg) = true -> is_finite (c_peer cfg) = true -> in_i64 (c_interval cfg) -> in_i64 D ->
+  in_i64 (c_interval cfg) -> in_i64 D ->
   ((exists code nd, prologue cfg D = Refuse code nd) <-> (inadmissible cfg = true \/ D <= 0)) /\
   (forall rm pm, prologue cfg D = Start rm pm ->
      rm = cap (c_ref cfg) D /\ pm = cap (c_peer cfg) D /\ cap_ok rm /\ cap_ok pm /\ fle rm pm = true).
 Proof.
-  intros Fr Fp Ii ID. pose proof (prologue_cases cfg D Fr Fp Ii ID) as P.
+  intros Ii ID. pose proof (prologue_cases cfg D Ii ID) as P.
   destruct (prologue cfg D) as [code nd|rm pm].
   - split.
     + split; [intros _|intros _; eauto]. destruct P as [[A _]|[_ [B _]]]; auto.
@@ -877,3 +978,24 @@ Qed.
 (* clocks.UnknownDrift (configured drift 0): Drift reports MaxInt64, whatever the interval *)
 Lemma unknown_drift d : Units.sysclk_drift 0 d = max_i64.
 Proof. unfold Units.sysclk_drift. replace (feq (dur_seconds 0) fzero) with true by (vm_compute; reflexivity). reflexivity. Qed.
+
+(* a NaN impact factor is refused before the clock is even asked for its drift: Run panics, no event at all
+   (whatever the clock, the sources and the other settings are) *)
+Theorem nan_factor_refused cfg D nref npeer rs :
+  fis_nan (c_ref cfg) = true \/ fis_nan (c_peer cfg) = true ->
+  inadmissible cfg = true /\ run cfg D nref npeer rs = (true, []).
+Proof.
+  intros H. split; [apply nan_inadmissible; exact H|].
+  unfold run, prologue. destruct H as [H|H].
+  - rewrite (fgt_nan_l _ _ H). reflexivity.
+  - rewrite (fgt_nan_l (c_peer cfg) fone H). destruct (fgt (c_ref cfg) fone); reflexivity.
+Qed.
+
+(* the only non-finite setting that is admitted is a peer factor +Inf (with a finite reference factor):
+   the peer cap is then +Inf - the peer side is not bounded, the reference side is *)
+Lemma pinf_peer_cap cfg D : inadmissible cfg = false -> is_finite (c_peer cfg) = false -> in_i64 D -> 0 < D ->
+  c_peer cfg = B754_infinity false /\ cap (c_peer cfg) D = B754_infinity false /\ is_finite (c_ref cfg) = true.
+Proof.
+  intros Hin Hp ID Dp. destruct (admissible_factors cfg Hin) as [[Fr _] [E|[Fp _]]]; [|congruence].
+  rewrite E. split; [reflexivity|]. split; [apply cap_pinf; assumption|exact Fr].
+Qed.
